@@ -115,12 +115,15 @@ public:
     virtual unsigned int getNextState(unsigned int currentState,
                                       XMLSize_t    elementIndex) const = 0;
 
+    // elementIndex is updated when the element is matched by another leaf
+    // than the given one, because the occurrence counter of that one is
+    // used up
     virtual bool handleRepetitions( const QName* const curElem,
                                     unsigned int curState,
                                     unsigned int currentLoop,
                                     unsigned int& nextState,
                                     unsigned int& nextLoop,
-                                    XMLSize_t elementIndex,
+                                    XMLSize_t& elementIndex,
                                     SubstitutionGroupComparator * comparator) const = 0;
 
 protected :
